@@ -270,6 +270,26 @@ pub fn run(ctx: &mut Ctx) {
         history(ctx, &case, &mut paux);
         ctx.sample(json!({"annex": {"K": "6C89347354DE2484C60B4AB1FDE4C6E5", "S_B": "D3A0FE15..F8EB", "S_A": "18C7894B..DB88"}}));
     }
+    // --- the convenience constructor build_ex_pair (fresh key pairs inside): honest run must agree and confirm
+    if ctx.shard == 0 {
+        for klen in [1usize, 16, 48] {
+            ctx.eval();
+            ctx.class("build_ex_pair");
+            rng_prepare(&[]);
+            let r = guard(|| {
+                let (mut a, mut b) = gm_sm2::exchange::build_ex_pair(klen, "alice@example", "bob@example").ok()?;
+                let ra = a.exchange_1().ok()?;
+                let (rb, sb) = b.exchange_2(&ra).ok()?;
+                let sa = a.exchange_3(&rb, sb).ok()?;
+                let ok = b.exchange_4(sa, &ra).ok()?;
+                Some((ok, hk::exchange_key(&a), hk::exchange_key(&b)))
+            });
+            match r {
+                Outcome::Ret(Some((true, Some(ka), Some(kb)))) if ka == kb && ka.len() == klen => {}
+                o => ctx.violation("build_ex_pair:honest-run:failed", json!({"klen": klen, "outcome": format!("{:?}", o.class())})),
+            }
+        }
+    }
     let n = ctx.n(600, 40_000);
     let mut prng = ctx.prng("hist");
     let kinds = [Kind::OtherPoint, Kind::Negated, Kind::OffCurve, Kind::BitFlipHash, Kind::PermutedHash];
